@@ -77,11 +77,14 @@ def c18_2(c: Ctx) -> None:
             if v.key != h.key:
                 rms += [n for n in own_nodes(v.node) if isinstance(n, ast.Call) and call_name(n) == 'remove' and n.args and U(n.args[0]) == h.name]
     c.floor(len(rms), 1, 'removal of the temporary handler')
-    recv = rms[0].func.value  # self.handlers[<key>]
-    if not (isinstance(recv, ast.Subscript) and U(recv.value) == f'{self_}.handlers'):
+    recv = rms[0].func.value  # self.handlers[<key>]  or  self.handlers.get(<key>[, default])
+    if isinstance(recv, ast.Subscript) and U(recv.value) == f'{self_}.handlers':
+        keyexpr = recv.slice
+    elif isinstance(recv, ast.Call) and isinstance(recv.func, ast.Attribute) and recv.func.attr == 'get' and U(recv.func.value) == f'{self_}.handlers' and recv.args:
+        keyexpr = recv.args[0]
+    else:
         c.fail(u, f'removal from {U(recv)[:60]}', 'the temporary handler is removed from something other than self.handlers[key]', node=rms[0])
         return
-    keyexpr = recv.slice
     rm_stmt = q.stmt_of(rms[0])
     tr = next((t for t in q.ancestors_of(rms[0]) if isinstance(t, ast.Try) and q.lexically_in(rms[0], t, 'finalbody')), None)
     block = tr.finalbody if tr is not None else (q.block_of(rm_stmt) or [rm_stmt])
@@ -118,49 +121,67 @@ def c18_3(c: Ctx) -> None:
     u, h, reg = expect_parts(c)
     g = c.cfg(h)
     ev = h.params()[0]
+    params = u.params()
+    # what a local name of expect stands for, as a conjunction of the caller's filters: `include = lambda e, include=include: include(e) and predicate(e)` -> {include, predicate}
+    comp: dict[str, set[str]] = {}
+    for n in own_nodes(u.node):
+        if isinstance(n, ast.Assign) and len(n.targets) == 1 and isinstance(n.targets[0], ast.Name) and isinstance(n.value, ast.Lambda):
+            lam = n.value
+            if not lam.args.args:
+                continue
+            arg = lam.args.args[0].arg
+            defaults = {a.arg: U(d) for a, d in zip(lam.args.args[-len(lam.args.defaults):], lam.args.defaults)} if lam.args.defaults else {}
+            body = lam.body
+            vals = body.values if isinstance(body, ast.BoolOp) and isinstance(body.op, ast.And) else [body]
+            if all(isinstance(v, ast.Call) and len(v.args) == 1 and U(v.args[0]) == arg and isinstance(v.func, ast.Name) for v in vals):
+                comp[n.targets[0].id] = {defaults.get(v.func.id, v.func.id) for v in vals}
+    copies = {n.targets[0].id: U(n.value) for n in own_nodes(u.node) if isinstance(n, ast.Assign) and len(n.targets) == 1 and isinstance(n.targets[0], ast.Name) and isinstance(n.value, ast.Name)}
+
+    def stands_for(name: str, depth: int = 0) -> set[str]:
+        out: set[str] = set()
+        for x in comp.get(name, {name}):
+            x = copies.get(x, x) if x not in params else x
+            out |= {x} if (x == name or x not in comp or depth > 3) else stands_for(x, depth + 1) | ({x} if x in params else set())
+        return out
+
     sets = [n for n in g.live_nodes() if q.node_calls(n, 'set_result')]
     c.floor(len(sets), 1, 'future.set_result in the temporary handler')
+    required_pos = [p_ for p_ in ('include', 'predicate') if p_ in params]
     for sn in sets:
         call = q.node_calls(sn, 'set_result')[0]
         fut = U(call.func.value)
-        atoms = {f'{fut}.done()', f'include({ev})', f'exclude({ev})'}
+        applied = sorted({x.func.id for y in ast.walk(h.node) for x in [y] if isinstance(x, ast.Call) and isinstance(x.func, ast.Name) and len(x.args) == 1 and U(x.args[0]) == ev})
+        chosen: list[str] = []
+        missing = []
+        for r in required_pos:
+            f = next((f for f in applied if r in stands_for(f) and f != 'exclude'), None)
+            if f is None:
+                missing.append(r)
+            elif f not in chosen:
+                chosen.append(f)
+        if missing:
+            c.fail(u, f'the temporary handler never applies the caller\'s filter(s) {missing}', f'the {"deprecated predicate" if missing == ["predicate"] else "include"} filter is ignored: expect() can return an event that does not match', node=sn.ast)
+            continue
+        atoms = {f'{fut}.done()', f'exclude({ev})'} | {f'{f}({ev})' for f in chosen}
         facts = Facts(lambda a: a in atoms, cg=None)
-        p = q.guard_search(g, sn, f'not {fut}.done() and include({ev}) and not exclude({ev})', facts)
+        guard = ' and '.join([f'not {fut}.done()'] + [f'{f}({ev})' for f in chosen] + ([f'not exclude({ev})'] if 'exclude' in params else []))
+        p = q.guard_search(g, sn, guard, facts)
         if p is None:
-            c.ok(where(h, sn.ast), f'set_result only under not {fut}.done() and include({ev}) and not exclude({ev})')
+            c.ok(where(h, sn.ast), f'set_result only under {guard} (covering the caller\'s {required_pos})')
         else:
-            c.fail(h, f'{fut}.set_result reachable without `not {fut}.done() and include and not exclude`', 'expect() can resolve with a non-matching event (or raise InvalidStateError on a second match)', node=sn.ast, witness=c.path(g.entry, p))
+            c.fail(h, f'{fut}.set_result reachable without `{guard}`', 'expect() can resolve with a non-matching event (or raise InvalidStateError on a second match)', node=sn.ast, witness=c.path(g.entry, p))
         if call.args and U(call.args[0]) == ev:
             c.ok(where(h, sn.ast), 'resolves with the event being handled')
         else:
             c.fail(h, f'set_result({U(call.args[0]) if call.args else ""})', 'expect() resolves with something other than the matching event', node=sn.ast)
-    # include/predicate composition
-    lambdas = [n for n in own_nodes(u.node) if isinstance(n, ast.Assign) and U(n.targets[0]) == 'include' and isinstance(n.value, ast.Lambda)]
-    if 'predicate' in u.params():
-        if len(lambdas) != 1:
-            c.fail(u, f'{len(lambdas)} compositions of include with predicate', 'the deprecated predicate filter is ignored')
-            return
-        lam = lambdas[0].value
-        arg = lam.args.args[0].arg
-        defaults = {a.arg: U(d) for a, d in zip(lam.args.args[-len(lam.args.defaults):], lam.args.defaults)} if lam.args.defaults else {}
-        orig_names = {n.targets[0].id for n in own_nodes(u.node) if isinstance(n, ast.Assign) and isinstance(n.targets[0], ast.Name) and U(n.value) == 'include'}
-        body = lam.body
-        ok = isinstance(body, ast.BoolOp) and isinstance(body.op, ast.And) and len(body.values) == 2 and all(isinstance(v, ast.Call) and len(v.args) == 1 and U(v.args[0]) == arg for v in body.values)
-        if ok:
-            callees = {defaults.get(U(v.func), U(v.func)) for v in body.values}
-            ok = 'predicate' in callees and bool(callees & (orig_names | {'include'})) and len(callees) == 2
-        if ok:
-            c.ok(where(u, lambdas[0]), f'include := {U(lam)[:80]}')
-        else:
-            c.fail(u, f'include composed as {U(lam)[:80]}', 'include and the deprecated predicate are not both required (events matching only one of them are returned)', node=lambdas[0])
 
 
 @ob('C18.4', 'ESC/FLOW', 'with a timeout expect awaits asyncio.wait_for(future, timeout) and returns its value; nothing in expect catches TimeoutError')
 def c18_4(c: Ctx) -> None:
     u, h, reg = expect_parts(c)
     g = c.cfg(u)
-    futs = [n.targets[0].id for n in own_nodes(u.node) if isinstance(n, (ast.Assign,)) and isinstance(n.targets[0], ast.Name) and isinstance(n.value, ast.Call) and 'Future' in U(n.value.func)]
-    futs += [n.target.id for n in own_nodes(u.node) if isinstance(n, ast.AnnAssign) and isinstance(n.target, ast.Name) and n.value is not None and isinstance(n.value, ast.Call) and 'Future' in U(n.value.func)]
+    futs = [n.targets[0].id for n in own_nodes(u.node) if isinstance(n, (ast.Assign,)) and isinstance(n.targets[0], ast.Name) and isinstance(n.value, ast.Call) and ('Future' in U(n.value.func) or U(n.value.func).endswith('create_future'))]
+    futs += [n.target.id for n in own_nodes(u.node) if isinstance(n, ast.AnnAssign) and isinstance(n.target, ast.Name) and n.value is not None and isinstance(n.value, ast.Call) and ('Future' in U(n.value.func) or U(n.value.func).endswith('create_future'))]
     if not futs:
         raise AnalysisError('expect: no future')
     fut = futs[0]
@@ -169,6 +190,10 @@ def c18_4(c: Ctx) -> None:
     for rn in rets:
         v = rn.ast.value
         good = isinstance(v, ast.Await) and (U(v.value) == fut or (isinstance(v.value, ast.Call) and call_name(v.value) == 'wait_for' and v.value.args and U(v.value.args[0]) == fut))
+        if not good and v is not None and U(v) == f'{fut}.result()':
+            # the value of a future known to be done (the other spelling of "what the future was resolved with")
+            f_done = Facts(lambda a: a == f'{fut}.done()', cg=None)
+            good = q.guard_search(g, rn, f'{fut}.done()', f_done) is None
         if good:
             c.ok(where(u, rn.ast), f'returns `{U(v)[:60]}`')
         else:
@@ -190,7 +215,29 @@ def c18_4(c: Ctx) -> None:
         else:
             c.fail(u, f'wait_for timeout is {U(to) if to is not None else "missing"}', 'the caller\'s timeout is not the one applied', node=wf[0])
     else:
-        c.fail(u, 'no wait_for(future, timeout)', 'expect() ignores its timeout')
+        # the other spelling: `await asyncio.wait({future}, timeout=timeout)` followed by `raise TimeoutError` when the future is still not done
+        ws = [n for n in own_nodes(u.node) if isinstance(n, ast.Call) and U(n.func) in ('asyncio.wait', 'wait') and n.args and fut in U(n.args[0])]
+        to = q.kw(ws[0], 'timeout') if ws else None
+        raises_to = [n for n in g.live_nodes() if n.kind == 'raise' and n.ast.exc is not None and 'TimeoutError' in U(n.ast.exc)]
+        if ws and to is not None and U(to) == 'timeout' and raises_to:
+            f_done = Facts(lambda a: a == f'{fut}.done()', cg=None)
+            from sa.facts import entails
+
+            def under_not_done(rn_) -> bool:
+                # the branch is entered with the future not done (what happens to the future inside the branch — it is cancelled there — is another matter)
+                for a in q.ancestors_of(rn_.ast):
+                    if isinstance(a, ast.If) and q.lexically_in(rn_.ast, a, 'body'):
+                        env = f_done.assume(a.test, True, {})
+                        if env is not None and entails(env, ast.parse(f'not {fut}.done()', mode='eval').body):
+                            return True
+                return False
+
+            if all(under_not_done(rn_) for rn_ in raises_to):
+                c.ok(where(u, ws[0]), 'asyncio.wait({future}, timeout=timeout), then TimeoutError exactly when the future is still not done')
+            else:
+                c.fail(u, 'TimeoutError raised although the future may be done', 'expect() raises TimeoutError although a matching event arrived', node=raises_to[0].ast)
+        else:
+            c.fail(u, 'no wait_for(future, timeout)', 'expect() ignores its timeout')
     H = c.an.fm.h
     from sa.cfg import search
 
